@@ -43,6 +43,8 @@ fn main() {
         "digest" => digest(&args),
         "export" => export(&args),
         "cold-one" => cold_one(&args),
+        "one" => one(&args),
+        "exec-file" => exec_file(&args),
         "selftest-model" => selftest_model(),
         "cold-exec" => cold_exec(&args),
         "c14" => sim::bcrypt::main(&args),
@@ -71,7 +73,28 @@ fn worker(args: &[String]) {
     let known = Known::load(arg(args, "--known").unwrap_or("/verif/known_findings.json"));
     let digest_file = arg(args, "--digest-file");
     let deadline = budget.map(|s| Instant::now() + Duration::from_secs(s));
-    let b = run_batch(&reg, &anchors, prop, seed, total, stride, offset, &known, replay_dir, deadline, 3);
+    // breadcrumb: which run is executing, so that the driver can re-run it if this process dies inside cipher code
+    let mut crumb = arg(args, "--breadcrumb").and_then(|p| std::fs::OpenOptions::new().create(true).write(true).truncate(true).open(p).ok());
+    let mut on_run = |i: u64, s: u64| {
+        if let Some(f) = crumb.as_mut() {
+            use std::io::{Seek, SeekFrom};
+            let _ = f.seek(SeekFrom::Start(0));
+            let _ = f.write_all(format!("{:020} {:020}\n", i, s).as_bytes());
+        }
+    };
+    let exe = std::env::current_exe().unwrap();
+    let cand = format!("{}/fresh-cand-{}-{}.json", arg(args, "--tmp").unwrap_or("/verif/.build/tmp"), prop.name(), offset);
+    let known_path = arg(args, "--known").unwrap_or("/verif/known_findings.json").to_string();
+    let mut fresh_exec = |cfg: &RunCfg, ops: &[Op], rs: u64| -> Option<Violation> {
+        let dummy = Violation { prop: "C15", class: String::new(), step: 0, family: String::new(), variant: String::new(), detail: String::new(), expected: vec![], got: vec![], also: vec![] };
+        let rj = replay_json(&reg, prop.name(), rs, cfg, ops, &dummy, json!({}));
+        std::fs::write(&cand, serde_json::to_string(&rj).unwrap()).ok()?;
+        let a: Vec<String> = ["exec-file", &cand, "--known", &known_path, "--prop", prop.name()].iter().map(|s| s.to_string()).collect();
+        let j = spawn_json(&exe, &a).ok()?;
+        Violation::from_json(&j["violation"])
+    };
+    let b = run_batch(&reg, &anchors, prop, seed, total, stride, offset, &known, replay_dir, deadline, 3, &mut on_run, &mut fresh_exec);
+    let _ = std::fs::remove_file(&cand);
     let mut j = b.to_json();
     if let Some(p) = digest_file {
         let mut f = std::fs::File::create(p).unwrap_or_else(|_| die("cannot write digest file"));
@@ -119,6 +142,7 @@ fn check(args: &[String]) {
             .args(["worker", "--prop", prop.name(), "--seed", &seed.to_string(), "--total", &total.to_string()])
             .args(["--stride", &workers.to_string(), "--offset", &w.to_string(), "--budget-s", &budget.to_string()])
             .args(["--replay-dir", &replay_dir, "--known", &known_path, "--digest-file", &df])
+            .args(["--breadcrumb", &format!("{}/{}-crumb-{}", tmp, prop.name(), w), "--tmp", &tmp])
             .stdout(Stdio::piped())
             .stderr(Stdio::piped())
             .spawn()
@@ -146,13 +170,19 @@ fn check(args: &[String]) {
         let j: Value = match serde_json::from_str(line) {
             Ok(j) if out.status.success() => j,
             _ => {
-                // the worker died (signal / abort inside cipher code): that is an outcome, reported with what we know
-                herr.push(format!(
-                    "worker {} ended abnormally: status {:?}; stderr tail: {}",
-                    w,
-                    out.status,
-                    String::from_utf8_lossy(&out.stderr).lines().rev().take(5).collect::<Vec<_>>().join(" | ")
-                ));
+                // the worker died (signal / abort inside cipher code): that is an outcome. Find the run it was
+                // executing, re-run it traced in a child, and report the death with the history that leads to it
+                let crumb = std::fs::read_to_string(format!("{}/{}-crumb-{}", tmp, prop.name(), w)).unwrap_or_default();
+                let mut it = crumb.split_whitespace();
+                let (ri, rs) = (it.next().and_then(|x| x.parse::<u64>().ok()), it.next().and_then(|x| x.parse::<u64>().ok()));
+                let tail = String::from_utf8_lossy(&out.stderr).lines().rev().take(3).collect::<Vec<_>>().join(" | ");
+                match (ri, rs) {
+                    (Some(ri), Some(rs)) => match died_run(&exe, prop, rs, ri, seed, &replay_dir, &known_path, &tmp, &tail) {
+                        Some(v) => violations.push(v),
+                        None => herr.push(format!("worker {} ended abnormally in run {} (seed {}) but the run does not die when repeated alone: status {:?}; {}", w, ri, rs, out.status, tail)),
+                    },
+                    _ => herr.push(format!("worker {} ended abnormally: status {:?}; stderr tail: {}", w, out.status, tail)),
+                }
                 continue;
             }
         };
@@ -340,6 +370,47 @@ fn replay(args: &[String]) {
     let s = std::fs::read_to_string(path).unwrap_or_else(|e| die(&format!("read {}: {}", path, e)));
     let v: Value = serde_json::from_str(&s).unwrap_or_else(|e| die(&format!("parse {}: {}", path, e)));
     let cold = v.get("cold").and_then(|x| x.as_bool()).unwrap_or(false);
+    if let Some(wp) = v.get("worker_prefix").filter(|x| x.is_object()) {
+        // the recorded outcome depends on what the finding worker's earlier runs left in process-global state:
+        // re-execute that worker's deterministic sequence of runs up to the recorded one
+        let reg = sim::registry::build();
+        let anchors = Anchors::compute(&reg);
+        install_quiet_panic_hook();
+        let prop = Prop::parse(v.get("property").and_then(|x| x.as_str()).unwrap_or("")).unwrap_or_else(|| die("property"));
+        let g = |k: &str| wp.get(k).and_then(|x| x.as_u64()).unwrap_or_else(|| die("worker_prefix"));
+        let (master, stride, offset, upto) = (g("master_seed"), g("stride"), g("offset"), g("upto_run"));
+        let want = wp.get("signature").and_then(|x| x.as_str()).unwrap_or("");
+        let known = Known::load(arg(args, "--known").unwrap_or("/verif/known_findings.json"));
+        let mut i = offset;
+        while i <= upto {
+            let r = sim::engine::run_one(&reg, &anchors, prop, sim::prng::run_seed(master, i), &known);
+            if let Some(got) = r.violation {
+                println!("{}", got.to_json());
+                if i == upto && got.signature() == want {
+                    println!("REPRODUCED exactly (run {} of the recorded worker, signature {})", i, want);
+                } else {
+                    println!("REPRODUCED a violation of {} at run {} (recorded: run {}, {})", got.prop, i, upto, want);
+                }
+                println!("VIOLATION property={} replay={}", prop.name(), path);
+                std::process::exit(1);
+            }
+            i += stride;
+        }
+        println!("NOT-REPRODUCED: runs {}..={} step {} of the recorded worker completed without a {} violation", offset, upto, stride, prop.name());
+        return;
+    }
+    if v.get("died").and_then(|x| x.as_bool()).unwrap_or(false) && std::env::var_os("VERIF_IN_CHILD").is_none() {
+        // the recorded outcome is the death of the executing process: execute in a child and watch it
+        let exe = std::env::current_exe().unwrap();
+        let o = Command::new(&exe).args(["exec-file", path]).env("VERIF_IN_CHILD", "1").stdout(Stdio::piped()).stderr(Stdio::piped()).output().unwrap_or_else(|e| die(&format!("spawn: {}", e)));
+        if o.status.success() {
+            println!("NOT-REPRODUCED: the process executing the recorded history ended normally");
+            return;
+        }
+        println!("REPRODUCED: the process executing the recorded history ended with {:?}: {}", o.status, String::from_utf8_lossy(&o.stderr).lines().rev().take(2).collect::<Vec<_>>().join(" | "));
+        println!("VIOLATION property={} replay={}", v.get("property").and_then(|x| x.as_str()).unwrap_or("?"), path);
+        std::process::exit(1);
+    }
     let reg = sim::registry::build();
     // a cold-start replay must not construct anything before the recorded history runs
     let anchors = if cold { Anchors::compute_for(&reg, Some(&[])) } else { Anchors::compute(&reg) };
@@ -651,4 +722,105 @@ fn selftest_model() {
         }
         println!("selftest-model: aese/aesd/aesmc/aesimc agree with AES-NI on 100000 random inputs; tbl4 ok");
     }
+}
+
+// ---------------------------------------------------------------------------
+// a worker process died inside cipher code
+
+/// One traced run (every operation printed before it is applied).
+fn one(args: &[String]) {
+    let reg = sim::registry::build();
+    let anchors = Anchors::compute(&reg);
+    install_quiet_panic_hook();
+    let (prop, _) = common(args);
+    let rs: u64 = arg(args, "--run-seed").and_then(|s| s.parse().ok()).unwrap_or_else(|| die("--run-seed"));
+    let known = Known::load(arg(args, "--known").unwrap_or("/verif/known_findings.json"));
+    let r = sim::engine::run_one_full(&reg, &anchors, prop, rs, &known, &sim::workload::Limits::default(), false, true);
+    println!("@done {}", serde_json::to_string(&run_result_json(&reg, &r)).unwrap());
+}
+
+/// Execute an explicit operation list (warm process) and print the result as JSON; used when minimising a history that kills the process.
+fn exec_file(args: &[String]) {
+    let path = args.get(2).map(|s| s.as_str()).unwrap_or_else(|| die("exec-file <file>"));
+    let reg = sim::registry::build();
+    let anchors = Anchors::compute(&reg);
+    install_quiet_panic_hook();
+    let s = std::fs::read_to_string(path).unwrap_or_else(|e| die(&format!("read {}: {}", path, e)));
+    let v: Value = serde_json::from_str(&s).unwrap_or_else(|e| die(&format!("parse {}: {}", path, e)));
+    let l = load_replay(&reg, &v).unwrap_or_else(|e| die(&e));
+    let known = Known::load(arg(args, "--known").unwrap_or("/verif/known_findings.json"));
+    let target = arg(args, "--prop").map(|s| s.to_string());
+    let r = execute_mode(&reg, &anchors, &l.cfg, &l.ops, l.seed, target.as_deref(), &known, false);
+    println!("{}", serde_json::to_string(&run_result_json(&reg, &r)).unwrap());
+}
+
+fn died_violation(reg: &sim::registry::Registry, ops: &[Op], how: &str) -> Violation {
+    let last = ops.last();
+    let (prop, fam) = match last {
+        Some(Op::Call { .. }) | Some(Op::Repeat { .. }) => ("C04", ""),
+        Some(Op::Clone { .. }) | Some(Op::Conv { .. }) => ("C12", ""),
+        _ => ("C15", ""),
+    };
+    let _ = (reg, fam);
+    Violation {
+        prop,
+        class: "process-died".into(),
+        step: ops.len().saturating_sub(1),
+        family: String::new(),
+        variant: String::new(),
+        detail: format!("the process executing this history was killed or aborted during its last operation ({}): {}", last.map(|o| o.kind()).unwrap_or("?"), how),
+        expected: vec![],
+        got: vec![],
+        also: vec!["C04", "C12", "C15"].into_iter().filter(|p| *p != prop).collect(),
+    }
+}
+
+/// Re-run (traced) the run a dead worker was executing; if it dies again, minimise and write a replay file.
+#[allow(clippy::too_many_arguments)]
+fn died_run(exe: &std::path::Path, prop: Prop, rs: u64, ri: u64, master: u64, replay_dir: &str, known_path: &str, tmp: &str, tail: &str) -> Option<Value> {
+    let reg = sim::registry::build();
+    let out = Command::new(exe).args(["one", "--prop", prop.name(), "--run-seed", &rs.to_string(), "--known", known_path]).stdout(Stdio::piped()).stderr(Stdio::piped()).output().ok()?;
+    let so = String::from_utf8_lossy(&out.stdout).to_string();
+    if out.status.success() && so.lines().any(|l| l.starts_with("@done")) {
+        return None;
+    }
+    let how = format!("status {:?}; {}", out.status, String::from_utf8_lossy(&out.stderr).lines().rev().take(2).collect::<Vec<_>>().join(" | "));
+    let env: Value = so.lines().find_map(|l| l.strip_prefix("@env ")).and_then(|x| serde_json::from_str(x).ok())?;
+    let opsj: Vec<Value> = so.lines().filter_map(|l| l.strip_prefix("@op ")).filter_map(|x| x.split_once(' ')).filter_map(|(_, j)| serde_json::from_str(j).ok()).collect();
+    let l = load_replay(&reg, &json!({"property": prop.name(), "seed": rs, "environment": env, "ops": opsj})).ok()?;
+    let v0 = died_violation(&reg, &l.ops, &how);
+    let mk = |cfg: &RunCfg, ops: &[Op], v: &Violation, meta: Value| {
+        let mut rj = replay_json(&reg, prop.name(), rs, cfg, ops, v, meta);
+        rj["died"] = json!(true);
+        rj
+    };
+    let base = format!("{}/{}-died-{}-{}", replay_dir, prop.name(), master, ri);
+    let _ = std::fs::create_dir_all(replay_dir);
+    let _ = std::fs::write(format!("{}.orig.json", base), serde_json::to_string_pretty(&mk(&l.cfg, &l.ops, &v0, json!({"run": ri, "minimised": false, "worker_stderr": tail}))).unwrap());
+    let rr = RunResult { seed: rs, cfg: l.cfg.clone(), ops: l.ops.clone(), violation: Some(v0.clone()), notes: vec![], stats: Stats::default(), h_all: 0, h_portable: 0, task_order: 0, insts_created: 0, harness_error: None };
+    let cand = format!("{}/died-cand-{}.json", tmp, ri);
+    let mut exec = |cfg: &RunCfg, ops: &[Op]| -> Option<Violation> {
+        let rj = mk(cfg, ops, &v0, json!({}));
+        std::fs::write(&cand, serde_json::to_string(&rj).unwrap()).ok()?;
+        let o = Command::new(exe).args(["exec-file", &cand, "--known", known_path]).stdout(Stdio::piped()).stderr(Stdio::piped()).output().ok()?;
+        if o.status.success() {
+            None
+        } else if o.status.code() == Some(2) {
+            None
+        } else {
+            Some(died_violation(&reg, ops, "died again"))
+        }
+    };
+    // signature of a death carries no family; shrink_with compares signatures, which are equal for all deaths of one property
+    let shr = shrink_with(&rr, v0.prop, &mut exec);
+    let _ = std::fs::remove_file(&cand);
+    let (path, v) = match shr {
+        Some(s) => {
+            let p = format!("{}.min.json", base);
+            let _ = std::fs::write(&p, serde_json::to_string_pretty(&mk(&s.cfg, &s.ops, &s.violation, json!({"run": ri, "minimised": true, "ops_before": l.ops.len(), "ops_after": s.ops.len()}))).unwrap());
+            (p, s.violation)
+        }
+        None => (format!("{}.orig.json", base), v0),
+    };
+    Some(json!({"replay": path, "violation": v.to_json(), "run": ri, "seed": rs}))
 }
